@@ -268,7 +268,12 @@ def _objective_mo(trial):
     x = trial.suggest_float("x", 0, 1)
     y = trial.suggest_float("y", 0, 1)
     k = trial.suggest_int("k", 0, 3)
-    return x + 0.1 * k, (1 - x) * (1 + y)
+    # several categorical parameters with hash-unfriendly names: their order must never come from set iteration
+    a = trial.suggest_categorical("activation", ["relu", "tanh", "gelu"])
+    o = trial.suggest_categorical("optimizer", ["sgd", "adam", "rmsprop"])
+    n = trial.suggest_categorical("norm_layer", ["none", "batch", "layer"])
+    pen = {"relu": 0.0, "tanh": 0.1, "gelu": 0.2}[a] + {"sgd": 0.0, "adam": 0.05, "rmsprop": 0.15}[o]
+    return x + 0.1 * k + pen, (1 - x) * (1 + y) + {"none": 0.0, "batch": 0.3, "layer": 0.1}[n]
 
 
 def _samplers():
@@ -298,6 +303,10 @@ def _run(make_sampler, mo, storage, splits, pruner):
         pruner = pruner.mk()
     study = optuna.create_study(storage=storage, study_name="run", sampler=make_sampler(), pruner=pruner,
                                 directions=["minimize", "minimize"] if mo else ["minimize"])
+    if isinstance(study.sampler, optuna.samplers.GridSampler):
+        # warm-start points that carry no grid id (the sampler then has to pick among the remaining grid points itself)
+        for g, c in ((0, "a"), (1.5, None), (0, True)):
+            study.enqueue_trial({"g": g, "c": c})
     for n in splits:
         obj = _objective_mo if mo else (_objective_finite if isinstance(study.sampler, optuna.samplers.BruteForceSampler) else
                                         _objective_grid if isinstance(study.sampler, optuna.samplers.GridSampler) else _objective)
@@ -312,6 +321,35 @@ def _run(make_sampler, mo, storage, splits, pruner):
     return [repr((t.number, t.state.name, tuple((k, norm(v)) for k, v in sorted(t.params.items(), key=lambda kv: kv[0])),
                   tuple(norm(v) for v in t.values) if t.values else None,
                   tuple((int(k), norm(v)) for k, v in sorted(t.intermediate_values.items())))) for t in study.get_trials(deepcopy=False)]
+
+
+def _run_in_subprocess(name, pi, N, hashseed):
+    """the same seeded in-memory run in a fresh interpreter with another PYTHONHASHSEED (string hashing / set order differ)"""
+    import json
+    import os
+    import subprocess
+    import sys
+    env = dict(os.environ, PYTHONHASHSEED=str(hashseed))
+    env["PYTHONPATH"] = os.pathsep.join([os.path.dirname(os.path.dirname(os.path.abspath(__file__)))] + ([env["PYTHONPATH"]] if env.get("PYTHONPATH") else []))
+    code = f"import json, harness.c09 as h; print('RESULT' + json.dumps(h._run_named({name!r}, {pi}, {N})))"
+    out = subprocess.run([sys.executable, "-c", code], env=env, capture_output=True, text=True, timeout=600)
+    for line in out.stdout.splitlines():
+        if line.startswith("RESULT"):
+            return json.loads(line[6:])
+    return [("subprocess failed", out.stderr[-300:])]
+
+
+def _mk_pruners(mo):
+    return [lambda: None] if mo else [lambda: optuna.pruners.MedianPruner(n_startup_trials=3, n_warmup_steps=0),
+                                      lambda: optuna.pruners.HyperbandPruner(min_resource=1, max_resource=3, reduction_factor=2)]
+
+
+def _run_named(name, pi, N):
+    import warnings
+    warnings.simplefilter("ignore")
+    optuna.logging.set_verbosity(optuna.logging.ERROR)
+    mk, mo = _samplers()[name]
+    return _run(mk, mo, InMemoryStorage(), [N], _FreshPruner(_mk_pruners(mo)[pi]))
 
 
 def _run_split(make_sampler, mo, splits, pruner):
@@ -339,8 +377,7 @@ def differential():
             except Exception as e:  # noqa  (optional dependency missing offline)
                 samples.append({"sampler": name, "skipped": str(e)[:80]})
                 continue
-            mk_pruners = [lambda: None] if mo else [lambda: optuna.pruners.MedianPruner(n_startup_trials=3, n_warmup_steps=0),
-                                                    lambda: optuna.pruners.HyperbandPruner(min_resource=1, max_resource=3, reduction_factor=2)]
+            mk_pruners = _mk_pruners(mo)
             if name in ("grid", "bruteforce", "qmc", "cmaes", "tpe-mv-group"):
                 mk_pruners = mk_pruners[:1]
             for pi, mkp in enumerate(mk_pruners):
@@ -357,8 +394,9 @@ def differential():
                     "rerun": lambda: _run(mk, mo, InMemoryStorage(), [N], pr),
                     "split-5+9": lambda: _run_split(mk, mo, [5, 9], pr),
                 }
-                if name not in ("bruteforce",):
-                    pass
+                if pi == 0 and name in ("tpe", "tpe-mv-group", "nsga2", "nsga3", "grid", "random"):
+                    for hs in (1, 2):
+                        variants[f"other-process-hashseed-{hs}"] = (lambda hs=hs: _run_in_subprocess(name, pi, N, hs))
                 for vn, f in variants.items():
                     try:
                         got = f()
